@@ -729,4 +729,265 @@ theorem final_prompt_fits {tv : TVar} {t : List Node} {mode : Nat} {tf : Option 
   rw [ht] at hfit'
   exact hfit'
 
+
+/-! ## Round 7 -/
+
+
+theorem tLegacy_renders_ordered : RendersOrdered tLegacy := by
+  intro s p r
+  cases hs : s.isEmpty <;> cases hp : p.isEmpty <;> cases hr : r.isEmpty <;>
+    simp [tLegacy, execList, execNode, eval, evalField, Root.get, legacyRoot, truthy, printVal,
+      XOut.append, hs, hp, hr] <;>
+    (try rw [isEmpty_eq_nil hs]) <;> (try rw [isEmpty_eq_nil hp]) <;> (try rw [isEmpty_eq_nil hr]) <;>
+    ord_solve
+
+theorem tLegacyCut_renders_ordered : RendersOrdered tLegacyCut := by
+  intro s p r
+  cases hs : s.isEmpty <;> cases hp : p.isEmpty <;> cases hr : r.isEmpty <;>
+    simp [tLegacyCut, execList, execNode, eval, evalField, Root.get, legacyRoot, truthy, printVal,
+      XOut.append, hs, hp, hr] <;>
+    (try rw [isEmpty_eq_nil hs]) <;> (try rw [isEmpty_eq_nil hp]) <;> (try rw [isEmpty_eq_nil hr]) <;>
+    ord_solve
+
+/-- **Legacy template of prompt_test.go (join repair = current /repo): the conversation is rendered
+    in its order.** -/
+theorem legacy_join_in_order_tLegacy (efix : Bool) (msgs : List RMsg) (tools : ToolsV := {}) :
+    ∃ b, execute ⟨2, efix⟩ tLegacy msgs tools = .ok b ∧ InOrder (contentsOf legacyRole msgs) b :=
+  legacy_join_in_order tLegacy tLegacyCut efix true (by decide) (tLegacy_cut efix)
+    tLegacy_renders_ordered tLegacyCut_renders_ordered msgs tools
+
+/-- **In-place messages template: the messages are rendered in the order of the conversation.** -/
+theorem inplace_in_order (tv : TVar) (msgs : List RMsg) (tools : ToolsV := {}) :
+    ∃ b, execute tv tInPlace msgs tools = .ok b ∧ InOrder (contentsOf (fun _ => true) msgs) b := by
+  have hbody : ∀ x : RMsg, execList ⟨false, (collate msgs).1, [], [], collateMsgs msgs, tools⟩ inPlaceBody (some x)
+      = .ok ([91] ++ (roleName x.1 ++ ([124] ++ (x.2 ++ ([93] ++ []))))) := by
+    intro x
+    simp [inPlaceBody, execList, execNode, eval, evalField, printVal, XOut.append]
+  obtain ⟨o, ho, hord⟩ := fold_bodies_ord (fun _ => true)
+    (execList ⟨false, (collate msgs).1, [], [], collateMsgs msgs, tools⟩ inPlaceBody)
+    (collateMsgs msgs) [] [] trivial (fun x _ => ⟨_, hbody x, by
+      simp only [if_true]
+      apply InOrder.one_of_single
+      exact ⟨[91] ++ roleName x.1 ++ [124], [93], by simp, trivial⟩⟩)
+  have hm' : nodesMention Fld.messages tInPlace = true := by decide
+  have hex := inplace_exec ⟨false, (collate msgs).1, [], [], collateMsgs msgs, tools⟩ rfl
+  cases hne : (collateMsgs msgs).isEmpty with
+  | true =>
+    have hnil : collateMsgs msgs = [] := by cases h : collateMsgs msgs <;> simp_all
+    refine ⟨[], ?_, ?_⟩
+    · simp only [execute, hm', if_true]
+      show execList ⟨false, (collate msgs).1, [], [], (collate msgs).2, tools⟩ tInPlace none = _
+      have e2 : (collate msgs).2 = collateMsgs msgs := rfl
+      rw [e2, hex]
+      simp [hne, execList, XOut.append]
+    · apply collate_refines (fun _ => true) msgs
+      rw [hnil]; trivial
+  | false =>
+    refine ⟨o, ?_, ?_⟩
+    · simp only [hne, Bool.false_eq_true, if_false] at hex
+      simp only [execute, hm', if_true]
+      show execList ⟨false, (collate msgs).1, [], [], (collate msgs).2, tools⟩ tInPlace none = _
+      have e2 : (collate msgs).2 = collateMsgs msgs := rfl
+      rw [e2, hex, ho]
+      simp [XOut.append]
+    · apply collate_refines (fun _ => true) msgs
+      simpa using hord
+
+
+
+
+
+def headerBody : List Node :=
+  [.ite (.ne (.field .role) (.str [115, 121, 115, 116, 101, 109]))
+      [.text [91], .action (.field .role), .text [124], .action (.field .content), .text [93]] false []]
+
+theorem header_exec (root : Root) (hl : root.legacy = false) :
+    execList root tHeader none =
+      (if root.system.isEmpty then XOut.ok [] else XOut.ok ([83, 60] ++ (root.system ++ ([62] ++ [])))).append
+      ((if root.msgs.isEmpty then execList root [] none
+       else root.msgs.foldl (fun (a : XOut) m => a.append (execList root headerBody (some m))) (XOut.ok [])).append
+        (XOut.ok [])) := by
+  obtain ⟨l, s, p, r, ms, tl⟩ := root
+  simp only at hl
+  subst hl
+  cases hs : s.isEmpty <;>
+    simp [tHeader, headerBody, execList, execNode, eval, evalField, Root.get, truthy, printVal, XOut.append, hs]
+
+theorem header_body (root : Root) (x : RMsg) :
+    execList root headerBody (some x) =
+      .ok (if x.1 = Role.system then [] else [91] ++ (roleName x.1 ++ ([124] ++ (x.2 ++ ([93] ++ []))))) := by
+  obtain ⟨r, c⟩ := x
+  cases r <;>
+    simp [headerBody, execList, execNode, eval, evalField, printVal, truthy, roleName, XOut.append]
+
+theorem header_body_ord (x : RMsg) :
+    InOrder (if (fun r => !isSys r) x.1 then one x.2 else [])
+      (if x.1 = Role.system then [] else [91] ++ (roleName x.1 ++ ([124] ++ (x.2 ++ ([93] ++ []))))) := by
+  obtain ⟨r, c⟩ := x
+  have key : ∀ r' : Role, InOrder (one c) ([91] ++ (roleName r' ++ ([124] ++ (c ++ ([93] ++ []))))) := by
+    intro r'
+    apply InOrder.one_of_single
+    exact ⟨[91] ++ roleName r' ++ [124], [93], by simp, trivial⟩
+  cases r
+  · simp [isSys]; trivial
+  all_goals (simp only [isSys, Bool.not_false, if_true, reduceCtorEq, if_false]; exact key _)
+
+/-- **Header messages template (harness style 0): the system messages come first, in order, then the
+    other messages in the order of the conversation.** -/
+theorem header_in_order (tv : TVar) (msgs : List RMsg) (tools : ToolsV := {}) :
+    ∃ b, execute tv tHeader msgs tools = .ok b ∧
+      InOrder (contentsOf isSys msgs ++ contentsOf (fun r => !isSys r) msgs) b := by
+  let root : Root := ⟨false, (collate msgs).1, [], [], collateMsgs msgs, tools⟩
+  obtain ⟨o, ho, hord⟩ := fold_bodies_ord (fun r => !isSys r) (execList root headerBody)
+    (collateMsgs msgs) [] [] trivial (fun x _ => ⟨_, header_body root x, header_body_ord x⟩)
+  have hm' : nodesMention Fld.messages tHeader = true := by decide
+  have hex := header_exec root rfl
+  have hsys := collate_system_inorder msgs
+  have hrest : ∃ o', (if root.msgs.isEmpty then execList root [] none
+       else root.msgs.foldl (fun (a : XOut) m => a.append (execList root headerBody (some m))) (XOut.ok [])) = .ok o' ∧
+       InOrder (contentsOf (fun r => !isSys r) msgs) o' := by
+    cases hne : (collateMsgs msgs).isEmpty with
+    | true =>
+      have hnil : collateMsgs msgs = [] := by cases h : collateMsgs msgs <;> simp_all
+      refine ⟨[], by simp [root, hne, execList], ?_⟩
+      apply collate_refines _ msgs
+      rw [hnil]; trivial
+    | false =>
+      refine ⟨o, by simp only [root, hne, Bool.false_eq_true, if_false]; exact ho, ?_⟩
+      apply collate_refines _ msgs
+      simpa using hord
+  obtain ⟨o', ho', hord'⟩ := hrest
+  have hexec : execute tv tHeader msgs tools = execList root tHeader none := by
+    simp only [execute, hm', if_true]
+    rfl
+  rw [hexec, hex, ho']
+  cases hs : root.system.isEmpty with
+  | true =>
+    refine ⟨[] ++ (o' ++ []), by simp [XOut.append], ?_⟩
+    have : (collate msgs).1 = [] := by
+      have : root.system = (collate msgs).1 := rfl
+      rw [← this]; cases h : root.system <;> simp_all
+    rw [this] at hsys
+    have h0 : InOrder (contentsOf isSys msgs) ([] : Bytes) := hsys
+    simpa using InOrder.append h0 hord'
+  | false =>
+    refine ⟨([83, 60] ++ (root.system ++ ([62] ++ []))) ++ (o' ++ []), by simp [XOut.append], ?_⟩
+    have h1 : InOrder (contentsOf isSys msgs) ([83, 60] ++ (root.system ++ ([62] ++ []))) :=
+      (hsys.right _).left _
+    simpa using InOrder.append h1 hord'
+
+/-- **"In their original order" on the PROMPT BYTES, in-place messages template** (current /repo
+    variant): the non-empty contents of the system messages that precede the retained run, then of the
+    retained messages (as rewritten), occur in the prompt one after the other in the order of the
+    conversation. -/
+theorem prompt_in_order_inplace {tv : TVar} {mode : Nat} {tf : Option Nat} {p : Bytes}
+    {tools : ToolsV} (hv : cfg.fixed = true)
+    (h : chatPromptT cfg tv tInPlace mode msgs tf tools = .ok q n sys ret imgs p) :
+    sys = systemsBefore msgs n ∧ AllSame (msgs.drop n) ret ∧
+    InOrder (contentsOf (fun _ => true) ((sys ++ ret).map toRMsg)) p := by
+  obtain ⟨hg, hexec⟩ := templ_ok_exact h
+  obtain ⟨b, hb, hord⟩ := inplace_in_order tv ((sys ++ ret).map toRMsg) tools
+  rw [hexec] at hb
+  injection hb with hb
+  subst hb
+  exact ⟨(system_kept_fixed hg hv).1, retained_is_suffix_in_order hg, hord⟩
+
+/-- the same for the header messages template: system messages first, then the rest in order -/
+theorem prompt_in_order_header {tv : TVar} {mode : Nat} {tf : Option Nat} {p : Bytes}
+    {tools : ToolsV} (hv : cfg.fixed = true)
+    (h : chatPromptT cfg tv tHeader mode msgs tf tools = .ok q n sys ret imgs p) :
+    sys = systemsBefore msgs n ∧ AllSame (msgs.drop n) ret ∧
+    InOrder (contentsOf isSys ((sys ++ ret).map toRMsg) ++
+      contentsOf (fun r => !isSys r) ((sys ++ ret).map toRMsg)) p := by
+  obtain ⟨hg, hexec⟩ := templ_ok_exact h
+  obtain ⟨b, hb, hord⟩ := header_in_order tv ((sys ++ ret).map toRMsg) tools
+  rw [hexec] at hb
+  injection hb with hb
+  subst hb
+  exact ⟨(system_kept_fixed hg hv).1, retained_is_suffix_in_order hg, hord⟩
+
+/-- the same for the legacy template of prompt_test.go on the join-repaired legacy loop (current
+    /repo): system / user / assistant contents in the order of the conversation -/
+theorem prompt_in_order_legacy {efix : Bool} {mode : Nat} {tf : Option Nat} {p : Bytes}
+    {tools : ToolsV} (hv : cfg.fixed = true)
+    (h : chatPromptT cfg ⟨2, efix⟩ tLegacy mode msgs tf tools = .ok q n sys ret imgs p) :
+    sys = systemsBefore msgs n ∧ AllSame (msgs.drop n) ret ∧
+    InOrder (contentsOf legacyRole ((sys ++ ret).map toRMsg)) p := by
+  obtain ⟨hg, hexec⟩ := templ_ok_exact h
+  obtain ⟨b, hb, hord⟩ := legacy_join_in_order_tLegacy efix ((sys ++ ret).map toRMsg) tools
+  rw [hexec] at hb
+  injection hb with hb
+  subst hb
+  exact ⟨(system_kept_fixed hg hv).1, retained_is_suffix_in_order hg, hord⟩
+
+
+
+
+
+/-- **A prompt is always built**: for a non-empty conversation, when no rendering / tokenizing fails and —
+    for an mllama model — no message carries more than one image and every image can be preprocessed,
+    chatPrompt succeeds (so the statements about `.ok` outcomes are not vacuous for any such input). -/
+theorem chatPrompt_total (hne : msgs ≠ []) (hbad : ∀ i, bad i = false)
+    (himg : cfg.mllama = true → ∀ m ∈ msgs, m.images.length ≤ 1)
+    (hok : ∀ m ∈ msgs, ∀ im ∈ m.images, imgOk cfg im) :
+    ∃ q n sys ret imgs, chatPrompt cfg cost bad msgs = .ok q n sys ret imgs := by
+  unfold chatPrompt
+  cases msgs with
+  | nil => exact absurd rfl hne
+  | cons m ms =>
+    simp only
+    obtain ⟨n', s', q', hs⟩ := scan_total cfg cost bad (m :: ms) hbad himg (m :: ms).length ((m :: ms).length - 1) none 0
+    rw [hs]
+    simp only
+    obtain ⟨⟨ret, imgs⟩, hr⟩ := rewriteAll_total cfg ((m :: ms).drop n') []
+      (fun x hx => hok x (List.mem_of_mem_drop hx))
+    rw [hr]
+    exact ⟨_, _, _, _, _, rfl⟩
+
+/-- **The cut is the specified one** (refinement): the first retained index is `specCut` of the
+    fit predicate — walk back from the latest message and stop at the first longer run that does not fit. -/
+theorem cut_is_spec (h : chatPrompt cfg cost bad msgs = .ok q n sys ret imgs) :
+    n = specCut (fits cfg cost msgs) (msgs.length - 1) := by
+  obtain ⟨h1, h2⟩ := retained_first_failure h
+  have hlt := start_lt h
+  exact (specCut_unique _ _ n (by omega) (fun j a b => h1 j a (by omega)) h2).symm
+
+
+
+
+
+/-- **The returned image list in closed form**: exactly the images of the retained messages, in order,
+    image `k` with `ID = k`, preprocessed iff mllama with a projector — nothing else, nothing twice. -/
+theorem images_are_spec (h : chatPrompt cfg cost bad msgs = .ok q n sys ret imgs) :
+    imgs = specImagesFrom cfg 0 ((msgs.drop n).flatMap (·.images)) := by
+  obtain ⟨s, _, _, hr, _⟩ := ok_inv h
+  simpa using rewriteAll_spec cfg _ _ _ _ hr
+
+
+/-! ### non-vacuity of the round-7 theorems -/
+
+/-- `legacy_join_in_order_tLegacy` / `prompt_in_order_legacy` talk about something: an unanswered user turn,
+    a late system message, another user turn (the shape seeded change K reorders) — three contents, three
+    places in the prompt, in the order of the conversation -/
+example :
+    execute ⟨2, true⟩ tLegacy [(.user, bHi), (.system, bSYS), (.user, bLong)]
+      = .ok (bHi ++ [32] ++ bSYS ++ [32] ++ bLong ++ [32]) ∧
+    contentsOf legacyRole [(.user, bHi), (.system, bSYS), (.user, bLong)] = [bHi, bSYS, bLong] := by decide
+
+/-- `InOrder` is not satisfiable by overlapping occurrences: the strings need room one after the other -/
+example : ¬ InOrder [bLong, bHi, bLong] (bLong ++ bHi ++ [32]) := by
+  intro h
+  have := h.length_le
+  simp [bLong, bHi] at this
+
+/-- `chatPrompt_total`: its hypotheses hold for `nvconv` on a projector model, and the cut it produces is the
+    specified one (`cut_is_spec`), the images the specified ones (`images_are_spec`) -/
+example :
+    nvconv ≠ [] ∧ (∀ m ∈ nvconv, ∀ im ∈ m.images, imgOk ⟨true, false, 2, 1600⟩ im) ∧
+    specCut (fits ⟨true, false, 2, 1600⟩ (fun i => [9, 8, 5].getD i 0) nvconv) (nvconv.length - 1) = 2 ∧
+    specImagesFrom ⟨true, false, 2, 1600⟩ 0 ((nvconv.drop 2).flatMap (·.images)) = [⟨0, 2, false⟩, ⟨1, 3, false⟩] := by
+  refine ⟨by decide, ?_, by decide, by decide⟩
+  intro m _ im _
+  exact Or.inl rfl
+
 end OllamaVerif.C19
